@@ -7,7 +7,7 @@
    written from osmformat.proto. *)
 From Coq Require Import ZArith List Bool.
 From Verif Require Import Base.Int64 Pbf.Tree Pbf.Model Pbf.Spec Pbf.Header Pbf.CheckLib Pbf.ProofsArith Pbf.ProofsIndep
-     Pbf.ProofsDecode Pbf.ProofsDense Pbf.ProofsAll Pbf.ProofsHeader Pbf.ProofsFile Pbf.ProofsNoPanic.
+     Pbf.ProofsDecode Pbf.ProofsDense Pbf.ProofsAll Pbf.ProofsHeader Pbf.ProofsFile Pbf.ProofsNoPanic Pbf.ProofsLayout.
 Import ListNotations.
 Open Scope Z_scope.
 
@@ -115,11 +115,42 @@ Theorem C01_scan_file_any_schedule : forall f, valid_file f = true -> forall c (
 Proof. exact blocks_any_states. Qed.
 Print Assumptions C01_scan_file_any_schedule.
 
-(* field_order_irrelevant (every layout / unknown fields) is not yet proved in Coq; it is checked per
-   generated file by the correspondence run (judgements 1-3 of C01/Check.v). *)
 
 (* 6. the block decoder never panics, for every message tree, configuration and decoder state
       (used by C06: a panic in a worker goroutine would be a process crash) *)
 Theorem C01_block_decoder_never_panics : forall c st m, scan_block c st m <> Panic.
 Proof. exact scan_block_never_panics. Qed.
 Print Assumptions C01_block_decoder_never_panics.
+
+(* 7. field_order_irrelevant: theorem 3 for EVERY layout.  canon_block m is m with the unknown field
+      numbers dropped and the fields of every message (block, dense, dense info, way, relation, info)
+      stably sorted by number — primitive groups keep the order of their items, because that is the
+      order of the elements.  Any message tree m whose canonical form is the reference encoding of a
+      valid description b — i.e. b's fields written in any order, at every nesting level, with any
+      unknown fields interspersed — decodes, under every configuration and from every decoder state,
+      to exactly the kept elements of b.  (Judgement 3 of the correspondence check establishes the
+      hypothesis canon_block m = encode_block b for every block fed to the implementation.) *)
+Theorem C01_field_order_irrelevant : forall b m,
+  valid_block b = true -> canon_block m = encode_block b ->
+  forall c st, scan_result c st m = Ok (filter (keeps c) (elements b)).
+Proof. exact field_order_irrelevant. Qed.
+Print Assumptions C01_field_order_irrelevant.
+
+(* non-vacuity: the witness block with parameters first, groups reversed inside their messages,
+   unknown fields 99 / 1000 at three levels *)
+Example C01_witness_layout :
+  let m : msg :=
+    [(19, WVar 5); (99, WVar 7); (17, WVar 1000);
+     (2, WMsg [(1000, WStr [1]);
+               (2, WMsg [(10, WPacked [1; 2; 4; 2; 0; 0]); (9, WPacked [399; 2]); (8, WPacked [200; 2]);
+                         (5, WMsg [(5, WPacked [6; 5]); (99, WVar 0); (2, WPacked [2800000000; 120]); (1, WPacked [3; 4])]);
+                         (1, WPacked [20; 4])])]);
+     (1, WMsg [(1, WStr []); (1, WStr [107]); (1, WStr [118]); (1, WStr [117]); (1, WStr [])]);
+     (2, WMsg [(3, WMsg [(10, WPacked [1; 1]); (8, WPacked [20; 3]); (9, WPacked [2; 2]);
+                         (4, WMsg [(5, WVar 3); (2, WVar 1400000000); (1, WVar 3)]);
+                         (3, WPacked [2]); (2, WPacked [1]); (1, WVar 7)]);
+               (4, WMsg [(10, WPacked [1; 0]); (9, WPacked [10; 15]); (8, WPacked [1; 0]); (3, WPacked []);
+                         (2, WPacked []); (1, WVar 9)])])] in
+  canon_block m = encode_block C01_witness_block
+  /\ scan_result cfg_all dstate0 m = Ok (elements C01_witness_block).
+Proof. vm_compute. split; reflexivity. Qed.
